@@ -48,19 +48,23 @@ func cloneRequest(req *http.Request) *http.Request {
 // withConditionalHeaders sets the conditional headers on the request based on the
 // stored response headers as specified in RFC 9111 §4.3.1.
 func withConditionalHeaders(req *http.Request, storedHdr http.Header) *http.Request {
-	var req2 *http.Request
-	if etag := storedHdr.Get("ETag"); etag != "" {
-		req2 = cloneRequest(req)
+	etag := storedHdr.Get("ETag")
+	lastModified := storedHdr.Get("Last-Modified")
+	_, ownINM := req.Header["If-None-Match"]
+	_, ownIMS := req.Header["If-Modified-Since"]
+	if etag == "" && lastModified == "" && !ownINM && !ownIMS {
+		return req
+	}
+	req2 := cloneRequest(req)
+	// The validators of the client's own copy do not reach the origin: a 304 has to speak about
+	// the stored response, which is what it is taken for.
+	req2.Header.Del("If-None-Match")
+	req2.Header.Del("If-Modified-Since")
+	if etag != "" {
 		req2.Header.Set("If-None-Match", etag)
 	}
-	if lastModified := storedHdr.Get("Last-Modified"); lastModified != "" {
-		if req2 == nil {
-			req2 = cloneRequest(req)
-		}
+	if lastModified != "" {
 		req2.Header.Set("If-Modified-Since", lastModified)
 	}
-	if req2 != nil {
-		req = req2
-	}
-	return req
+	return req2
 }
